@@ -1,5 +1,6 @@
 import LyModel.Props.C01
 import LyModel.Props.C01Lyb
+import LyModel.Props.C01LybTree
 #print axioms LyModel.Props.C01.xml_text_roundtrip
 #print axioms LyModel.Props.C01.xml_content_roundtrip
 #print axioms LyModel.Props.C01.xml_attr_roundtrip
@@ -21,3 +22,11 @@ import LyModel.Props.C01Lyb
 #print axioms LyModel.Props.C01Lyb.lyb_skip_lands_at_end_nested_fails
 #print axioms LyModel.Props.C01Lyb.lyb_skip_lands_at_end_partial
 #print axioms LyModel.Props.C01Lyb.lyb_skip_top_frame
+#print axioms LyModel.Props.C01LybTree.lyb_tree_roundtrip
+#print axioms LyModel.Props.C01LybTree.lyb_tree_roundtrip_gen
+#print axioms LyModel.Props.C01LybTree.rev_ok
+#print axioms LyModel.Props.C01LybTree.lyb_node_head_roundtrip
+#print axioms LyModel.Props.C01LybTree.lyb_term_value_roundtrip
+#print axioms LyModel.Props.C01LybTree.exPrint
+#print axioms LyModel.Props.C01LybTree.lyb_tree_print_total_fails
+#print axioms LyModel.Props.C01LybTree.lyb_tree_roundtrip_tagged_fails
